@@ -74,6 +74,10 @@ var c07IdOps = []c07IdOp{
 		h.Versions[j].Entries = []repository.TreeEntry{{ObjectType: repository.Blob, Name: "aaa-extra"}}
 		return true
 	}},
+	{"id/tree-extra-entry-after", true, false, func(h *iHistory, j int) bool {
+		h.Versions[j].Entries = []repository.TreeEntry{{ObjectType: repository.Blob, Name: "zzz-extra"}}
+		return true
+	}},
 	{"id/tree-wrong-entry-name", true, false, func(h *iHistory, j int) bool { h.Versions[j].Name = "versions"; return true }},
 	{"id/json-truncated", true, false, idBlob(func(b []byte) []byte { return b[:len(b)/2] })},
 	{"id/json-not-json", true, false, idBlob(func(b []byte) []byte { return []byte("\xff\xfe not json") })},
